@@ -258,17 +258,22 @@ def main():
           "    (s t k l : Nat) : Bool :=",
           f"  decide {tr.prop(iff.test)}", ""]
     body = iff.body
-    need(len(body) == 7, "if-body: 4 writes to A, 2 to edges, i += 1")
-    ws = writes_of(body[:4], "A", tr)
+    nA = 0
+    while nA < len(body) and isinstance(body[nA], ast.Assign) and isinstance(body[nA].targets[0], ast.Subscript) \
+            and ast.unparse(body[nA].targets[0].value) == "A":
+        nA += 1
+    need(nA >= 1 and len(body) == nA + 3, "if-body: writes to A, then 2 writes to edges, then i += 1")
+    ws = writes_of(body[:nA], "A", tr)
+    tail = body[nA:]
     L += ["/-- the array writes to `A` of an accepted rewiring, in program order -/",
           "def geoWrites (s t k l : Nat) : List (Nat × Nat × Bool) :=",
           "  [" + ", ".join(ws) + "]", ""]
-    for s_, nm, lean in ((body[4], "edge1", "geoEdge1"), (body[5], "edge2", "geoEdge2")):
+    for s_, nm, lean in ((tail[0], "edge1", "geoEdge1"), (tail[1], "edge2", "geoEdge2")):
         need(isinstance(s_, ast.Assign) and ast.unparse(s_.targets[0]) == f"edges[{nm}, [0, 1]]"
              and isinstance(s_.value, ast.Tuple) and len(s_.value.elts) == 2, f"write back of {nm}")
         a, b = (tr.node(x) for x in s_.value.elts)
         L += [f"/-- `{ast.unparse(s_)}` -/", f"def {lean} (s t k l : Nat) : Nat × Nat := ({a}, {b})", ""]
-    need(ast.unparse(body[6]) == "i += 1", "i += 1")
+    need(ast.unparse(tail[2]) == "i += 1", "i += 1")
 
     # ---- wrappers
     for mode in ("I", "II", "III"):
@@ -350,10 +355,15 @@ def main():
     brk = wl.body[3]
     need(isinstance(brk, ast.If) and ast.unparse(brk.body[0]) == "break" and not brk.orelse, "rewire: if …: break")
     ab = Tr(["a", "b", "c", "d"])
-    need(len(rest) == 5, "rewire: 2 writes to cross_A + 3 moves")
+    nC = 0
+    while nC < len(rest) and isinstance(rest[nC].targets[0], ast.Subscript) \
+            and ast.unparse(rest[nC].targets[0].value) == "cross_A":
+        nC += 1
+    need(nC >= 1 and len(rest) > nC, "rewire: writes to cross_A, then the exchange of the link ends")
+    cw, mv = rest[:nC], rest[nC:]
     locs = {"b": ".tmp", "cross_links[e1, 1]": ".l1", "cross_links[e2, 1]": ".l2"}
     moves = []
-    for s_ in rest[2:]:
+    for s_ in mv:
         need(isinstance(s_, ast.Assign) and len(s_.targets) == 1, f"rewire: `{ast.unparse(s_)}`")
         dst, srcl = ast.unparse(s_.targets[0]), ast.unparse(s_.value)
         need(dst in locs and srcl in locs, f"rewire: move `{ast.unparse(s_)}`")
@@ -362,8 +372,8 @@ def main():
           "def rewBreak (cross_A : Nat → Nat → Bool) (a b c d : Nat) : Bool :=",
           f"  decide {ab.prop(brk.test)}",
           "def rewWrites (a b c d : Nat) : List (Nat × Nat × Bool) :=",
-          "  [" + ", ".join(writes_of(rest[:2], "cross_A", ab)) + "]",
-          "/-- " + "; ".join(ast.unparse(s_) for s_ in rest[2:]) + " — (destination, source) -/",
+          "  [" + ", ".join(writes_of(cw, "cross_A", ab)) + "]",
+          "/-- " + "; ".join(ast.unparse(s_) for s_ in mv) + " — (destination, source) -/",
           "def rewMoves : List (Loc × Loc) := [" + ", ".join(moves) + "]", ""]
 
     # ---- interacting_networks.py
